@@ -224,13 +224,15 @@ Print Assumptions C12_orientation_general.
 
 (** ** 8. what the matchers compare, for the usual configuration of one node attribute (default d) and one edge
     attribute: labels are equal after substituting the default for a missing value; bond orders are equal, a missing
-    order matching only a missing order (Matcher copy) / nothing at all (MTG copy) *)
+    order matching only a missing order -- in BOTH copies since the repair /repo 24a0150 (before it the MTG copy matched a
+    missing order with nothing, not even a missing one: C-C against C-C without `order` had maximum 1; found by the round-5 audit,
+    witness corpus/regress/C12/mtg_missing_order.json) *)
 Theorem C12_matchers_meaning :
   forall (d : N) (e e' : option N) (a b : option N) (x y : option Z),
   (node_match [d] (Some (e, [a])) (Some (e', [b])) = true <->
      match a with Some v => v | None => d end = match b with Some v => v | None => d end) /\
   (edge_match [x] [y] = true <-> x = y) /\
-  (edge_match_mtg [x] [y] = true <-> exists o, x = Some o /\ y = Some o).
+  (edge_match_mtg [x] [y] = true <-> x = y).
 Proof. exact matchers_single. Qed.
 Print Assumptions C12_matchers_meaning.
 
@@ -528,8 +530,8 @@ Print Assumptions C12_history_component_valid.
 
 (** ** 17. (round 5) the MTG copy as an object ([run_history_mtg] -> [t_play] -> [t_step]; constructor [mk_config_mtg]).
     Constructor: no length test -- generic_node_match zips names, defaults and comparators, so only the first
-    min(len(names), len(defaults)) names are compared; its edge matcher on raw dictionaries (float() of both values, any
-    exception -> False) is [edge_match_mtg] on the selection [project_edge_mtg] *)
+    min(len(names), len(defaults)) names are compared; its edge matcher on raw dictionaries (both values missing -> True, float()
+    of both, an exception -> ==; after repair /repo 24a0150) is [edge_match_mtg] on the selection [project_edge_mtg] *)
 Theorem C12_mtg_object :
   (forall a : mtg_args, length (c_defs (mk_config_mtg a)) = length (c_names (mk_config_mtg a))) /\
   (forall (names defs : list N) (h p : rnattr),
@@ -704,8 +706,8 @@ Proof. exact rc_mol_is_find_mol. Qed.
 Print Assumptions C12_facade_mcs_mol.
 
 (** ** 23. (round 5) the MTG copy on the caller's graphs.  [raw_common_induced_mtg cfg k ga gb m] (written out in the first
-    theorem; k = the edge attribute): as for the Matcher copy, but a bond matches only when BOTH values of the edge attribute exist
-    and are float()-equal (a missing or non-castable value matches nothing).  For an object built by the MTG constructor (zip
+    theorem; k = the edge attribute): as for the Matcher copy with ONE edge attribute (since the repair /repo 24a0150: a missing value
+    matches only a missing value, a value float() rejects only itself).  For an object built by the MTG constructor (zip
     truncation of names / defaults), after any history: stored mappings are valid for (G1, G2) in that sense; maximum mode: all
     of size last_size, no valid mapping larger; all-sizes mode: every non-empty valid mapping returned. *)
 Theorem C12_mtg_raw_meaning :
@@ -773,3 +775,11 @@ Theorem C12_mtg_mcs_mol_choice_valid :
             common_induced (node_match defs) edge_match_mtg g1 g2 m.
 Proof. exact mol_choice_valid_mtg. Qed.
 Print Assumptions C12_mtg_mcs_mol_choice_valid.
+
+(** the MTG facade forwards mcs_mol (exercised since wave 4): find_rc_mapping(rc1, rc2, mcs_mol=True) is the mcs_mol search on the
+    right side of rc1 and the left side of rc2 ([TRcMol], [TFindMol] -> [find_mcs_mol_with_mtg]) *)
+Theorem C12_mtg_facade_mcs_mol :
+  forall (cfg : config) (st : tstate) (x : rc_input) (choice : mapping),
+  t_step cfg st (TRcMol x choice) = t_step cfg st (TFindMol (rc_r1 x) (rc_l2 x) choice).
+Proof. exact t_rc_mol_is_find_mol. Qed.
+Print Assumptions C12_mtg_facade_mcs_mol.
